@@ -264,12 +264,49 @@ class SymExec:
                 return ('lit', bytes(op['bytes']))
             if op['ty'] == '()':
                 return ('unit',)
+            m_ = re.search(r'::promoted\[(\d+)\]$', (op.get('text') or '').strip())
+            if m_:
+                v_ = self.promoted_value(p.frames[-1][0], int(m_.group(1)))
+                if v_ is not None:
+                    return v_
             if op.get('uneval'):
                 return ('item', op['uneval'])
             if op.get('fn'):
                 return ('fn', op['fn']['path'])
             return ('const', op['text'])
         raise Unsupported(op['k'])
+
+    def promoted_value(self, fn, i):
+        """value of a promoted constant of `fn` that the compiler did not evaluate (generic bodies): its straight-line body — integer
+        constants, references, Option::Some / None — is read; anything else is left alone"""
+        pb = self.bodies.get(f'{fn}::promoted[{i}]')
+        if pb is None or len(pb['blocks']) != 1:
+            return None
+        env = {}
+        for st in pb['blocks'][0]['stmts']:
+            if st['k'] != 'assign' or st['place']['proj']:
+                continue
+            rv = st['rv']
+            v = None
+            if rv['k'] == 'use' and rv['op']['k'] == 'const':
+                o = rv['op']
+                v = Aff({}, o['val']) if o.get('val') is not None else None      # integers only: byte-string constants keep their symbolic form (the models name them)
+            elif rv['k'] == 'use' and rv['op']['k'] in ('copy', 'move') and not rv['op']['place']['proj']:
+                v = env.get(rv['op']['place']['local'])
+            elif rv['k'] == 'ref':
+                pl = rv['place']
+                if all(pr['k'] == 'deref' for pr in pl['proj']):
+                    v = env.get(pl['local'])
+            elif rv['k'] == 'aggregate' and rv['kind']['agg'] == 'adt' and rv['kind']['path'] == 'std::option::Option':
+                ops = [env.get(o['place']['local']) if o['k'] in ('copy', 'move') and not o['place']['proj'] else None for o in rv['ops']]
+                if rv['kind']['variant'] == 0:
+                    v = ('adt', 'std::option::Option', 0, ())
+                elif ops and ops[0] is not None:
+                    v = ('adt', 'std::option::Option', 1, (ops[0],))
+            if v is None:
+                return None
+            env[st['place']['local']] = v
+        return env.get(0)
 
     # ------------------------------------------------------------------ main loop
     def explore(self, p):
